@@ -112,7 +112,10 @@ fn bedgraph_inputs() -> Vec<(String, String)> {
         t4.push_str(&format!("{}\t0\t10\t1\n{}\t10\t50\t2.5\n", c, c));
         sizes4.push_str(&format!("{}\t100\n", c));
     }
-    vec![(t1, sizes.clone()), (t2, sizes.clone()), (t3, sizes), (t4, sizes4)]
+    // non-finite values are outside C01's domain but legal in a file: the converters must still
+    // print the same text whatever the thread count
+    let t5 = "chr1\t0\t5\tinf\nchr1\t5\t6\t-inf\nchr1\t10\t20\tNaN\nchr10\t7\t8\t1\nchr2\t1\t2\tNaN\nchr2\t2\t3\t2\n".to_string();
+    vec![(t1, sizes.clone()), (t2, sizes.clone()), (t3, sizes.clone()), (t4, sizes4), (t5, sizes)]
 }
 
 fn bed_inputs() -> Vec<(String, String)> {
@@ -145,7 +148,7 @@ fn c16_all(quick: bool) -> Vec<C16Case> {
     let mut v = vec![];
     let mut n = 0usize;
     for bed in [false, true] {
-        for input in 0..4 {
+        for input in 0..(if bed { 4 } else { 5 }) {
             for threads in [1usize, 2, 3, 6, 16] {
                 for parallel in ["auto", "yes", "no"] {
                     for single_pass in [false, true] {
